@@ -1,5 +1,6 @@
 import GsModel.Props.C15
 import GsModel.Diff.Lift
+import GsModel.Diff.Lift2
 /-
   C13 — diff never reports a request-breaking change as compatible.
 
@@ -20,6 +21,8 @@ import GsModel.Diff.Lift
     `requestNarrowing`, then EVERY report `Analyse` returns contains a Breaking entry, whatever else the documents contain,
     for every fuel and iteration order (the analyser only appends: `Mono`; the loops reach every shared parameter:
     `foldlM_reach`).  `param_maxLength_lower_reported`, `param_maximum_lower_reported`: two instances end to end.
+  * `removed_endpoint_reported_breaking`, `added_required_param_reported_breaking` — the same lifting for the two structural
+    request-breaking edits: a live endpoint that disappears, a parameter that appears as required.
   The lifting for body schemas (through compareSchema, where the visited-key guard can skip a comparison) is decided by the
   catalogue sweep on the real analyser: partial.
 -/
@@ -326,6 +329,22 @@ theorem param_maximum_lower_reported (fl : Flags) (n : Nat) (a b : Spec) (pl : S
   rw [c1, c2]
   exact detected_maximum_lower n _ _ ty hty x y (by simp [forChain, t1]) (by simp [forChain, t2]) hfm rfl rfl e1 e2 hx hy hlt
 
+/-- an endpoint of the old document that is not deprecated and that the new document lacks: every report has a Breaking entry -/
+theorem removed_endpoint_reported_breaking (fl : Flags) (n : Nat) (a b : Spec) (um1 : UM) (h1 : um1 ∈ getURLMethodsFor a)
+    (hgone : findUM (getURLMethodsFor b) um1.url um1.method = none)
+    (hlive : um1.item.optionsDeprecated = false ∧ um1.op.deprecated = false) :
+    Outcome.Holds (fun ds => ∃ d ∈ ds, d.compat = Compat.Breaking) (analyse fl n a b) :=
+  analyse_reports_removed_endpoint fl n a b um1 h1 hgone hlive
+
+/-- a parameter the old endpoint does not have and the new one requires: every report has a Breaking entry -/
+theorem added_required_param_reported_breaking (fl : Flags) (n : Nat) (a b : Spec) (pl : String) (hpl : pl ∈ paramLocations)
+    (um1 um2 : UM) (hum2 : um2 ∈ getURLMethodsFor b) (hf : findUM (getURLMethodsFor a) um2.url um2.method = some um1)
+    (name : String) (p2 : Param)
+    (h1 : lookup (getParams um1.item.params um1.op.params pl) name = none)
+    (h2 : (name, p2) ∈ getParams um2.item.params um2.op.params pl) (hreq : p2.required = true) :
+    Outcome.Holds (fun ds => ∃ d ∈ ds, d.compat = Compat.Breaking) (analyse fl n a b) :=
+  analyse_reports_added_required_param fl n a b pl hpl um1 um2 hum2 hf name p2 h1 h2 hreq
+
 /-- non-vacuity: two concrete documents meet every hypothesis of `param_maxLength_lower_reported` -/
 def paramLen (m : Int) : Param := { name := "q", loc := "query", chain := [{ type := "string", v := { maxLength := some m } }] }
 def opLen (m : Int) : Operation := { method := "get", params := [paramLen m], responses := [{ code := 200, desc := "ok" }] }
@@ -339,6 +358,25 @@ example : Outcome.Holds (fun ds => ∃ d ∈ ds, d.compat = Compat.Breaking) (an
     (show ("q", paramLen 5) ∈ [("q", paramLen 5)] from List.mem_cons_self)
     _ _ [] [] rfl rfl rfl rfl rfl 10 5 rfl rfl (by decide)
 example : (analyse {} 5 (specLen 10) (specLen 5)).isOk = true := by decide
+
+/-- non-vacuity of the two structural liftings: an endpoint removed, a required parameter added -/
+def specNone : Spec := { paths := [] }
+def opBare : Operation := { method := "get", responses := [{ code := 200, desc := "ok" }] }
+def specBare : Spec := { paths := [{ url := "/a", ops := [opBare] }] }
+def paramReq : Param := { name := "q", loc := "query", required := true, chain := [{ type := "string" }] }
+def opReq : Operation := { method := "get", params := [paramReq], responses := [{ code := 200, desc := "ok" }] }
+def specReq : Spec := { paths := [{ url := "/a", ops := [opReq] }] }
+
+example : Outcome.Holds (fun ds => ∃ d ∈ ds, d.compat = Compat.Breaking) (analyse {} 5 (specLen 10) specNone) :=
+  removed_endpoint_reported_breaking {} 5 (specLen 10) specNone (umLen 10) (show umLen 10 ∈ [umLen 10] from List.mem_cons_self) rfl ⟨rfl, rfl⟩
+example : (analyse {} 5 (specLen 10) specNone).isOk = true := by decide
+
+example : Outcome.Holds (fun ds => ∃ d ∈ ds, d.compat = Compat.Breaking) (analyse {} 5 specBare specReq) :=
+  added_required_param_reported_breaking {} 5 specBare specReq "query" (by decide)
+    { url := "/a", method := "get", item := { url := "/a", ops := [opBare] }, op := opBare }
+    { url := "/a", method := "get", item := { url := "/a", ops := [opReq] }, op := opReq }
+    (show _ ∈ [_] from List.mem_cons_self) rfl "q" paramReq rfl (show ("q", paramReq) ∈ [("q", paramReq)] from List.mem_cons_self) rfl
+example : (analyse {} 5 specBare specReq).isOk = true := by decide
 
 /-! ### exit status -/
 
